@@ -195,7 +195,8 @@ def run(ctx) -> None:
                     else:
                         ctx.fail("R23a", m, n.ast, inst, f"transition to {tgt} is not conditional on config.{field}")
         if not found:
-            raise AnchorError(f"no assignment state = {tgt} found")
+            ctx.fail("R23a", init, cls.node, f"transition to {tgt} exists and is guarded by {field}",
+                     f"no assignment `self.state = ErrorRecoveryState.{tgt}` left in the decorator", function=CLS)
     # ---- R23c
     for name in RW:
         m = cls.find_method(name)
